@@ -182,7 +182,9 @@ export class ProcGenWrapper {
 
   create(data: DataValue): { [field: string]: BindingMapGen[] } | undefined {
     const { shadowRoot, procGen } = this
-    const children = procGen(this, true, data, undefined)
+    // the closures of this pass run again when a dynamic-slot component updates a slot value before the first
+    // `update`: they must see an empty update path tree (as called templates do), not `undefined`
+    const children = procGen(this, true, data, Object.create(null) as UpdatePathTreeRoot)
     this.handleChildrenCreationAndInsert(children.C, shadowRoot, undefined, undefined)
     return children.B
   }
